@@ -28,12 +28,12 @@ def Apart (N a b : Nat) : Prop := (a < b ∧ b < a + N) ∨ (b < a ∧ a < b + N
 theorem cell_setCell_eq {m : Array Nat} {W a v : Nat} (hs : m.size = 4 * W) (hW : 0 < W) :
     cell (setCell m W a v) W a = v := by
   have : a % (4 * W) < m.size := by rw [hs]; exact Nat.mod_lt _ (by omega)
-  simp [cell, setCell, Array.getElem?_setIfInBounds, this]
+  simp [cell, setCell, this]
 
 theorem cell_setCell_ne {m : Array Nat} {W a b v : Nat} (h : Apart (4 * W) a b) :
     cell (setCell m W b v) W a = cell m W a := by
   have : b % (4 * W) ≠ a % (4 * W) := fun e => mod_ne_of_window h e.symm
-  simp [cell, setCell, Array.getElem?_setIfInBounds, this]
+  simp [cell, setCell, this]
 
 theorem cell_add_period (m : Array Nat) (W a : Nat) : cell m W (a + 4 * W) = cell m W a := by
   simp [cell]
